@@ -248,6 +248,17 @@ func intWidth(b *types.Basic) (w int, signed bool) {
 	return 0, false
 }
 
+// Ghost sets: the specification type set[T] is represented (inside govc only) by
+// the Go type "chan<- T", which the modelled subset never uses for real values.
+func setTypeOf(elem types.Type) types.Type { return types.NewChan(types.SendOnly, elem) }
+
+func isSetType(t types.Type) (types.Type, bool) {
+	if c, ok := t.(*types.Chan); ok && c.Dir() == types.SendOnly {
+		return c.Elem(), true
+	}
+	return nil, false
+}
+
 func isTime(t types.Type) bool {
 	if n, ok := t.(*types.Named); ok {
 		o := n.Obj()
@@ -263,6 +274,9 @@ func (s *Sorts) SortOf(t types.Type) string {
 	}
 	if tp, ok := t.(*types.TypeParam); ok {
 		return s.SortOf(tp.Constraint().Underlying())
+	}
+	if el, ok := isSetType(t); ok {
+		return arraySort(s.SortOf(el), "Bool")
 	}
 	switch u := t.Underlying().(type) {
 	case *types.Basic:
